@@ -384,7 +384,7 @@ def _base_file(name):
     return os.path.join(core.VERIF, "models", "catalogue", name + ".json")
 
 
-BATCH = 16000     # events per validation round: bounds memory of the driver and of one TLC shard
+BATCH = 32000     # events per validation round: bounds memory of the driver and of one TLC shard
 
 
 class _Stream:
